@@ -354,5 +354,20 @@ def r5(ctx):
             n += 1
             ctx.ob(f"{fn}:{state}:invalid-{what.replace(' ', '-')}:raises:{n}", ok,
                    f"invalid {what} -> {o.kind} {o.exc_class}", o.raise_loc, {"path": path_text(o)})
+            if what == "text message" and o.kind == "raise":
+                # the rejected payload must not stay behind: later messages are judged on their own bytes
+                ws = next(c for c in o.run.heap.values() if getattr(c, "label", "") == "ws")
+                cf = o.run.cell(ws.fields["cont_frame"]).fields
+                clean = cf.get("cont_data") in (None, C(None)) and cf.get("recving_frames") in (None, C(None))
+                ctx.ob(f"{fn}:{state}:rejected-message-leaves-reassembler-idle:{n}", clean,
+                       "buffer and in-progress marker are cleared when a message is rejected" if clean else
+                       f"after rejecting an invalid text message the reassembly buffer still holds {cf.get('cont_data')!r} (in-progress {cf.get('recving_frames')!r}): "
+                       f"the next message is judged on stale + new bytes", o.raise_loc, {"path": path_text(o)})
         if n == 0:
             raise AnalysisError(f"state {state}: no path with a falsy validator result")
+
+
+@rule("R-C06-6", min_instances=2, title="close reason: validated for every length >= 3 (shared with R-C05-4)")
+def r6(ctx):
+    from .c05 import r4 as close_reason
+    close_reason(ctx)
